@@ -288,6 +288,7 @@ def chunks(items, n):
     return [items[i:i + size] for i in range(0, len(items), size)]
 
 
+CAPPED = []   # explorations that were stopped at a size cap in this (main) process: such a run is not exhaustive
 _PROCESS_TIMEOUTS = [0]  # non-terminating cases seen by this worker process (circuit breaker)
 
 
